@@ -26,6 +26,47 @@ def gen_nib(ctx, count):
         lines.append(f"dec53 d53_{i} 0 1 {hexs(nibs)}")
     return lines
 
+T35 = [0x96, 0x97, 0x9a, 0x9b, 0x9d, 0x9e, 0x9f, 0xa6, 0xa7, 0xab, 0xac, 0xad, 0xae, 0xaf, 0xb2, 0xb3, 0xb4, 0xb5, 0xb6, 0xb7, 0xb9, 0xba, 0xbb, 0xbc, 0xbd, 0xbe, 0xbf, 0xcb, 0xcd, 0xce,
+       0xcf, 0xd3, 0xd6, 0xd7, 0xd9, 0xda, 0xdb, 0xdc, 0xdd, 0xde, 0xdf, 0xe5, 0xe6, 0xe7, 0xe9, 0xea, 0xeb, 0xec, 0xed, 0xee, 0xef, 0xf2, 0xf3, 0xf4, 0xf5, 0xf6, 0xf7, 0xf9, 0xfa, 0xfb,
+       0xfc, 0xfd, 0xfe, 0xff]
+
+def gen_35(ctx, count):
+    """3.5 inch: the 703 nibbles of a data field for 524-byte contents (carry patterns of the three checksums first), decoding of nibble
+    strings that are valid, carry a wrong checksum, or contain a byte outside the table; whole WOZ2 track buffers after writes"""
+    rng = ctx.rng
+    lines = []
+    datas = patterns(rng, 524) + [bytes([255] * 12 + [0] * 512), bytes([0x80] * 524), bytes([0x7f, 0x80, 0x81] * 175)[:524], bytes([255, 0, 255] * 175)[:524]]
+    datas += [bytes(rng.randrange(256) for _ in range(524)) for _ in range(count)]
+    datas += [bytes(rng.choice([0, 255, 254, 1, 128]) for _ in range(524)) for _ in range(count // 2)]
+    for i, d in enumerate(datas):
+        lines.append(f"enc35 e35_{i} {hexs(d)}")
+    for i in range(max(6, count // 3)):
+        r = rng.random()
+        if r < 0.4:
+            nibs = bytes(rng.choice(T35) for _ in range(703))                     # valid bytes, checksum almost surely wrong
+        elif r < 0.7:
+            nibs = bytearray(rng.choice(T35[:4]) for _ in range(703))               # a byte with its high bit set that is not in the table
+            nibs[rng.randrange(703)] = rng.choice([0x80, 0x95, 0xaa, 0xd5, 0x98, 0xc0])
+            nibs = bytes(nibs)
+        else:
+            nibs = bytes([0x96] * 703)                                             # all zero values: data zero, checksums zero
+        lines.append(f"dec35 d35_{i} {hexs(nibs)}")
+    k = 0
+    for sides, tracks in ((1, [0, 15, 16, 47, 63, 64, 79]), (2, [0, 1, 31, 32, 95, 127, 128, 129, 159])):
+        for j in range(max(1, count // 12)):
+            trk = rng.choice(tracks)
+            zone = (trk if sides == 1 else trk // 2) // 16
+            nsec = [12, 11, 10, 9, 8][zone]
+            ws = []
+            for _ in range(rng.choice([0, 1, 2, 3, nsec])):
+                sec = rng.choice([rng.randrange(nsec), rng.randrange(nsec), nsec - 1, nsec, 12, 13])      # some are not on the track
+                ln = rng.choice([512, 512, 512, 1, 100, 511, 600, 0])
+                d = bytes(rng.randrange(256) for _ in range(ln)) if rng.random() < 0.7 else (rng.choice(patterns(rng, 512)) * 2)[:ln]
+                ws.append(f"{sec} {hexs(d) if d else '-'}")
+            lines.append(f"trk35 t35_{k} {sides} {trk} " + ' '.join(ws))
+            k += 1
+    return lines
+
 CONTAINERS = [  # (is13, sync, fill, buflen) as the three nibble containers create their tracks
     (0, 8, 255, 6656), (1, 8, 255, 6656),      # NIB
     (0, 10, 0, 6646), (1, 9, 0, 6646),         # WOZ1
@@ -56,15 +97,17 @@ def run(ctx, model_ok=True):
     quick = ctx.tier == 'quick'
     nib = gen_nib(ctx, 40 if quick else 1500)
     trk = gen_trk(ctx, 6 if quick else 120)
+    s35 = gen_35(ctx, 24 if quick else 600)
     ctx.samples += [nib[0][:120] + '...', trk[1][:160] + '...']
     ctx.distribution = {'rule': 'a case is distinct by its sha1; non-trivial = the implementation did not refuse it (a sector was encoded/decoded or a track rendered)',
-                        'nib_cases': len(nib), 'trk_cases': len(trk)}
+                        'nib_cases': len(nib), 'trk_cases': len(trk), 'sony_cases': len(s35)}
     triv = lambda toks, out: out is None or out.startswith('err') or out.startswith('write-err')
     if model_ok:
         fw.correspond(ctx, 'nib (encode_sector_62/53, decode_sector_62/53 vs Img/Nibble.v)', nib, trivial=triv)
         impl, model = fw.correspond(ctx, 'trk (NIB/WOZ1/WOZ2 track buffer after writes vs Img/Track525.v)', trk, trivial=triv)
+        fw.correspond(ctx, '3.5in (encode_sector_62 / decode_sector_62 of disk35.rs vs Img/Sony.v; WOZ2 400K/800K track buffer after writes vs Img/Track35.v)', s35, trivial=triv)
     else:
-        impl = fw.run_lines(fw.HARNESS_BIN, nib + trk)
+        impl = fw.run_lines(fw.HARNESS_BIN, nib + trk + s35)
     # implementation-side oracle (the property's own wording): encode then decode through the real code
     oracle_sector(ctx)
 
